@@ -1,6 +1,7 @@
 import Model.Mle
 import Model.Generated.MleSite
 import Proofs.C12Final
+import Proofs.C12OptEx
 import Mathlib.Analysis.Real.Sqrt
 import Mathlib.Analysis.SpecialFunctions.Log.Basic
 import Mathlib.Tactic.FinCases
@@ -22,12 +23,18 @@ an incoming off-diagonal count — implied by strong connectivity with ≥ 2 sta
 row sums stay positive, so the final assertions hold exactly and the output is a valid
 reversible model.
 
-NOT proved (kept as `def C12_optimal : Prop`, never asserted): that the fixed point maximises
-the likelihood over all reversible matrices with the same support.  That needs the
-uniqueness of the stationary point of the reversible likelihood and convergence of the block
-coordinate ascent; it is examined numerically only by the correspondence check (a test).
-Also not proved: termination of the loop before `max_iter` (the property allows a warning),
-and anything about floating-point rounding.
+Also proved (`optimal`, the statement is `def C12_optimal`): at a state where one more sweep
+changes nothing, on a strongly connected count matrix, `X / rowsum` maximises the
+log-likelihood over **all** reversible row-stochastic matrices of finite likelihood (positive
+wherever `C` is) — in particular those with the same support (`optimal_same_support`) and the
+transpose-symmetrised estimate (`optimal_vs_transpose`); `optimal_output` is the same for the
+`r.T` returned by `run`.  The proof (`Proofs/C12Opt.lean`) is Jensen's inequality for `log`
+plus the Prinz equations; no uniqueness or convergence argument is needed.
+
+NOT proved: that the loop *reaches* a fixed point (convergence of the block coordinate ascent,
+hence "up to the convergence tolerance" for a state that is only nearly fixed) — examined
+numerically by the correspondence check; termination of the loop before `max_iter` (the
+property allows a warning); anything about floating-point rounding.
 -/
 
 set_option linter.unusedSectionVars false
@@ -316,24 +323,194 @@ theorem returns_old_source_counterexample :
     have hk1 : k + 1 ≤ 1 := hk
     exact ⟨by show k + 1 = 1; omega, rfl⟩
 
-/-! ### optimality — stated, not proved -/
+/-! ### optimality -/
 
 /-- log-likelihood of a transition matrix on the counts (`0 · log 0 = 0` as `Real.log 0 = 0`) -/
 noncomputable def logLik {n : Nat} (C T : Mat ℝ n) : ℝ :=
   ∑ i, ∑ j, mget C i j * Real.log (mget T i j)
 
-/-- **Not proved.**  At a fixed point of the sweep (on a connected non-negative count matrix)
-the returned matrix `X/rowsum` has log-likelihood at least that of every reversible
-row-stochastic matrix with the same support. -/
+/-- In a strongly connected graph two states whose only counts go to each other are the whole
+state space.  (Such a pair is exactly a pair with `a = 0`, which the code skips; this lemma is
+what makes the Prinz equations hold for *every* pair at a fixed point.) -/
+theorem closed_pair_is_all {K : Type} [Field K] [LinearOrder K] [IsStrictOrderedRing K]
+    {n : Nat} (C : Mat K n) (hsc : StronglyConnected C) {i j : Fin n}
+    (hi : ∀ k, k ≠ j → mget C i k = 0) (hj : ∀ k, k ≠ i → mget C j k = 0) :
+    ∀ k, k = i ∨ k = j := by
+  have step : ∀ b c, (b = i ∨ b = j) → edge C b c → (c = i ∨ c = j) := by
+    intro b c hb hbc
+    unfold edge at hbc
+    rcases hb with rfl | rfl
+    · right; by_contra hne; rw [hi c hne] at hbc; exact lt_irrefl _ hbc
+    · left; by_contra hne; rw [hj c hne] at hbc; exact lt_irrefl _ hbc
+  intro k
+  have key : ∀ b, Relation.TransGen (edge C) i b → (b = i ∨ b = j) := by
+    intro b h
+    induction h with
+    | single h1 => exact step _ _ (Or.inl rfl) h1
+    | tail _ h2 ih => exact step _ _ ih h2
+  exact key k (hsc i k)
+
+/-- **Optimality (full statement).**  On a strongly connected non-negative count matrix with at
+least two states, at a state of the loop (invariant `Inv`, support invariant `Pos` — both
+hold along the iteration by `sweep_invariants` / `rowsums_stay_positive`) where one more sweep
+of the model over ℝ with `Real.sqrt` changes nothing, the matrix `X / rowsum` that `finish`
+returns has log-likelihood at least that of **every** reversible row-stochastic matrix `T'`
+(detailed balance with some positive `π'`) that is positive wherever `C` is — i.e. every
+reversible matrix of finite likelihood; in particular those with the same support as `X`
+(`optimal_same_support`) and the transpose-symmetrised estimate (`optimal_vs_transpose`).
+
+Compared with the earlier unproved draft: `Conn C` was replaced by the property's own
+quantifier `StronglyConnected C` (with `Conn` alone a closed pair `i ⇄ j` inside a larger
+matrix has `a = 0`, the code never updates `X[i,j]`, and the Prinz equation for that pair is
+not forced), and the competitor's support hypothesis was weakened from "same zero pattern as
+`X`" to "positive where `C` is" (more competitors, stronger theorem). -/
 def C12_optimal : Prop :=
   ∀ (n : Nat) (C : Mat ℝ n) (Crs : Vec ℝ n) (st : St ℝ n) (log : ℝ → ℝ) (q : St ℝ n × ℝ),
-    Data C Crs → Conn C → Inv st → Pos C st →
+    Data C Crs → StronglyConnected C → (∀ i : Fin n, ∃ j, j ≠ i) → Inv st → Pos C st →
     sweep Real.sqrt log C Crs st = .ok q → q.1.X = st.X →
     ∀ (T' : Mat ℝ n) (π' : Vec ℝ n),
       (∀ i j, 0 ≤ mget T' i j) → (∀ i, ∑ j, mget T' i j = 1) →
       (∀ i, 0 < vget π' i) → (∀ i j, vget π' i * mget T' i j = vget π' j * mget T' j i) →
-      (∀ i j, mget T' i j = 0 ↔ mget st.X i j = 0) →
+      (∀ i j, 0 < mget C i j → 0 < mget T' i j) →
       logLik C T' ≤ logLik C (Vector.ofFn fun i => Vector.ofFn fun j =>
         mget st.X i j / vget st.rs i)
+
+/-- a pair skipped by the `a == 0` guard is the whole state space (strong connectivity) -/
+theorem a_zero_pair_is_all {n : Nat} {C : Mat ℝ n} {Crs : Vec ℝ n} (hD : Data C Crs)
+    (hsc : StronglyConnected C) :
+    ∀ i j : Fin n, i ≠ j → coefA C Crs i j = 0 → ∀ k, k = i ∨ k = j := by
+  intro i j _ ha
+  obtain ⟨_, _, z1, z2⟩ := coefA_zero hD ha
+  exact closed_pair_is_all C hsc z1 z2
+
+/-- **The fixed point of the Prinz iteration maximises the reversible likelihood.** -/
+theorem optimal : C12_optimal := by
+  intro n C Crs st log q hD hsc h2 hinv hpos hsw hX T' π' hT0 hT1 hπ hdb hsupp
+  have hc : Conn C := conn_of_strongly_connected C hsc h2
+  have key := optimal_of_fixed hD hc hinv (fun i => hpos.rs_pos hD hc hinv i)
+    (a_zero_pair_is_all hD hsc) hsw hX T' π' hT0 hT1 hπ hdb hsupp
+  unfold logLik
+  simpa only [mget_ofFn] using key
+
+/-- the literal "same support" form: competitors with exactly the zero pattern of `X` -/
+theorem optimal_same_support {n : Nat} {C : Mat ℝ n} {Crs : Vec ℝ n} {st : St ℝ n}
+    {log : ℝ → ℝ} {q : St ℝ n × ℝ} (hD : Data C Crs) (hsc : StronglyConnected C)
+    (h2 : ∀ i : Fin n, ∃ j, j ≠ i) (hinv : Inv st) (hpos : Pos C st)
+    (hsw : sweep Real.sqrt log C Crs st = .ok q) (hX : q.1.X = st.X)
+    (T' : Mat ℝ n) (π' : Vec ℝ n)
+    (hT0 : ∀ i j, 0 ≤ mget T' i j) (hT1 : ∀ i, ∑ j, mget T' i j = 1)
+    (hπ : ∀ i, 0 < vget π' i)
+    (hdb : ∀ i j, vget π' i * mget T' i j = vget π' j * mget T' j i)
+    (hsame : ∀ i j, mget T' i j = 0 ↔ mget st.X i j = 0) :
+    logLik C T' ≤ logLik C (Vector.ofFn fun i => Vector.ofFn fun j =>
+      mget st.X i j / vget st.rs i) := by
+  apply optimal n C Crs st log q hD hsc h2 hinv hpos hsw hX T' π' hT0 hT1 hπ hdb
+  intro i j hcij
+  have hXpos : 0 < mget st.X i j := by
+    by_cases hij : i = j
+    · subst hij; exact hpos.diag i hcij
+    · exact hpos.off i j hij (add_pos_of_pos_of_nonneg hcij (hD.nonneg j i))
+  rcases eq_or_lt_of_le (hT0 i j) with h0 | h
+  · exact absurd ((hsame i j).1 h0.symm) (ne_of_gt hXpos)
+  · exact h
+
+/-- the transpose-symmetrised estimate `(C + Cᵀ) / rowsum (C + Cᵀ)` -/
+noncomputable def symEstimate {n : Nat} (C : Mat ℝ n) : Mat ℝ n :=
+  Vector.ofFn fun i => Vector.ofFn fun j =>
+    (mget C i j + mget C j i) / ∑ k, (mget C i k + mget C k i)
+
+/-- **"In particular the transpose-symmetrised estimate"**: at a fixed point the returned
+matrix is at least as likely as `(C + Cᵀ) / rowsum`. -/
+theorem optimal_vs_transpose {n : Nat} {C : Mat ℝ n} {Crs : Vec ℝ n} {st : St ℝ n}
+    {log : ℝ → ℝ} {q : St ℝ n × ℝ} (hD : Data C Crs) (hsc : StronglyConnected C)
+    (h2 : ∀ i : Fin n, ∃ j, j ≠ i) (hinv : Inv st) (hpos : Pos C st)
+    (hsw : sweep Real.sqrt log C Crs st = .ok q) (hX : q.1.X = st.X) :
+    logLik C (symEstimate C) ≤ logLik C (Vector.ofFn fun i => Vector.ofFn fun j =>
+      mget st.X i j / vget st.rs i) := by
+  have hc : Conn C := conn_of_strongly_connected C hsc h2
+  have hs : ∀ i, 0 < ∑ k, (mget C i k + mget C k i) := by
+    intro i
+    obtain ⟨k, _, hk⟩ := hc.out i
+    exact Finset.sum_pos' (fun j _ => add_nonneg (hD.nonneg i j) (hD.nonneg j i))
+      ⟨k, Finset.mem_univ _, add_pos_of_pos_of_nonneg hk (hD.nonneg k i)⟩
+  apply optimal n C Crs st log q hD hsc h2 hinv hpos hsw hX (symEstimate C)
+    (Vector.ofFn fun i => ∑ k, (mget C i k + mget C k i))
+  · intro i j
+    simp only [symEstimate, mget_ofFn]
+    exact div_nonneg (add_nonneg (hD.nonneg i j) (hD.nonneg j i)) (hs i).le
+  · intro i
+    simp only [symEstimate, mget_ofFn]
+    rw [← Finset.sum_div]
+    exact div_self (hs i).ne'
+  · intro i; rw [vget_ofFn]; exact hs i
+  · intro i j
+    simp only [symEstimate, mget_ofFn, vget_ofFn]
+    rw [mul_div_cancel₀ _ (hs i).ne', mul_div_cancel₀ _ (hs j).ne', add_comm]
+  · intro i j hcij
+    simp only [symEstimate, mget_ofFn]
+    exact div_pos (add_pos_of_pos_of_nonneg hcij (hD.nonneg j i)) (hs i)
+
+/-- **End to end**: if the estimator returns a model `r` and one more sweep from the returned
+`(X, X_rs)` changes nothing (the loop stopped at an exact fixed point), then the returned
+transition matrix `r.T` maximises the likelihood over all reversible row-stochastic matrices
+of finite likelihood. -/
+theorem optimal_output {n : Nat} {P : Params ℝ} (hsq : P.sqrt = Real.sqrt) (hP : ParamsOK P)
+    (hn : 0 < n) (hmax : 0 < P.maxIter) {C : Mat ℝ n} (hC : ∀ i j, 0 ≤ mget C i j)
+    (hsc : StronglyConnected C) (h2 : ∀ i : Fin n, ∃ j, j ≠ i)
+    {r : Result ℝ n} (hr : run P C = .ok r)
+    {Crs : Vec ℝ n} {st0 : St ℝ n} (hinit : init C = .ok (Crs, st0)) {q : St ℝ n × ℝ}
+    (hsw : sweep Real.sqrt P.log C Crs { X := r.X, rs := r.rs } = .ok q) (hX : q.1.X = r.X)
+    (T' : Mat ℝ n) (π' : Vec ℝ n)
+    (hT0 : ∀ i j, 0 ≤ mget T' i j) (hT1 : ∀ i, ∑ j, mget T' i j = 1)
+    (hπ : ∀ i, 0 < vget π' i)
+    (hdb : ∀ i j, vget π' i * mget T' i j = vget π' j * mget T' j i)
+    (hsupp : ∀ i j, 0 < mget C i j → 0 < mget T' i j) :
+    logLik C T' ≤ logLik C r.T := by
+  have hc : Conn C := conn_of_strongly_connected C hsc h2
+  have hs : SqrtSpec P.sqrt := by rw [hsq]; exact real_sqrt_spec
+  obtain ⟨hD, _, _, _⟩ := init_inv hC hinit
+  obtain ⟨Crs', st, k, hD', hinv, hpos, _, hcase⟩ := run_spec hs hP hn hmax hC hc
+  rcases hcase with ⟨_, _, herr⟩ | ⟨_, r', hr', hv⟩
+  · rw [herr] at hr; cases hr
+  · rw [hr'] at hr
+    injection hr with hr
+    subst hr
+    rw [hv.X, hv.rs] at hsw
+    rw [hv.X] at hX
+    have key := optimal_of_fixed hD hc hinv (fun i => hpos.rs_pos hD hc hinv i)
+      (a_zero_pair_is_all hD hsc) hsw hX T' π' hT0 hT1 hπ hdb hsupp
+    unfold logLik
+    simpa only [hv.T] using key
+
+/-! #### non-vacuity: a concrete fixed point with a non-symmetric count matrix
+
+`C = [[1,1],[2,4]]`, `X = [[1,1],[1,2]]`, `X_rs = (2,3)` (`Proofs/C12OptEx.lean`): every
+hypothesis of `optimal` / `optimal_vs_transpose` holds, and the competitor is a different
+matrix (`2/5 ≠ 1/2`). -/
+
+theorem exC_strongly_connected : StronglyConnected exC := by
+  intro i j
+  apply Relation.TransGen.single
+  unfold edge
+  rw [exC_get]; unfold exCf; split_ifs <;> norm_num
+
+example (log : ℝ → ℝ) : Data exC exCrs ∧ StronglyConnected exC ∧ (∀ i : Fin 2, ∃ j, j ≠ i) ∧
+    Inv exSt ∧ Pos exC exSt ∧
+    ∃ q, sweep Real.sqrt log exC exCrs exSt = .ok q ∧ q.1.X = exSt.X :=
+  ⟨exData, exC_strongly_connected,
+    fun i => by fin_cases i <;> [exact ⟨1, by decide⟩; exact ⟨0, by decide⟩],
+    exInv, exPos, fixed_example log⟩
+
+example : logLik exC (symEstimate exC)
+    ≤ logLik exC (Vector.ofFn fun i => Vector.ofFn fun j => mget exSt.X i j / vget exSt.rs i) := by
+  obtain ⟨q, hsw, hX⟩ := fixed_example Real.log
+  exact optimal_vs_transpose exData exC_strongly_connected
+    (fun i => by fin_cases i <;> [exact ⟨1, by decide⟩; exact ⟨0, by decide⟩]) exInv exPos hsw hX
+
+example : mget (symEstimate exC) 0 0 = 2 / 5 ∧ mget exSt.X 0 0 / vget exSt.rs 0 = 1 / 2 := by
+  refine ⟨?_, ?_⟩
+  · simp only [symEstimate, mget_ofFn, Fin.sum_univ_two, exC_get]
+    simp [exCf]; norm_num
+  · rw [exX_get, exrs_get]; simp [exXf]
 
 end C12
